@@ -28,7 +28,8 @@ int main() {
         if (w.size() == 2 && w[0] == "oinit") {
             out.assign(std::stoul(w[1]), 0);
             out.shrink_to_fit();
-            os.reset(new OutputMemoryStream(out.empty() ? (uint8_t*)0 : &out[0], out.size()));
+            static uint8_t none[1];
+            os.reset(new OutputMemoryStream(out.empty() ? none : &out[0], out.size()));
             o << "ok size=" << os->size();
             return o.str();
         }
